@@ -2,13 +2,42 @@ package main
 
 import (
 	"fmt"
+	"os"
+	"os/exec"
 	"strings"
+	"time"
 
 	"github.com/paulmach/orb"
 	"github.com/paulmach/orb/clip"
 )
 
-func init() { register(&Prop{ID: "C07", Run: runC07, Gen: genC07}) }
+const c07ProbeEnv = "ORBVERIF_C07_PROBE"
+
+func init() {
+	// probe mode (see c07Returns): make the bare clip call described by the environment variable and exit
+	if probe := os.Getenv(c07ProbeEnv); probe != "" {
+		f := strings.Fields(probe)
+		c07Call(f[0], f[1:])
+		os.Exit(0)
+	}
+	register(&Prop{ID: "C07", Run: runC07, Gen: genC07})
+}
+
+// c07Call makes the clip call of a `line` / `mls` case and nothing else.
+func c07Call(op string, in []string) {
+	r := &tokReader{t: in}
+	open := r.int() == 1
+	box := rdBound(r)
+	if op == "line" {
+		clip.LineString(box, orb.LineString(r.pts()), clip.OpenBound(open))
+		return
+	}
+	mls := make(orb.MultiLineString, r.int())
+	for i := range mls {
+		mls[i] = orb.LineString(r.pts())
+	}
+	clip.MultiLineString(box, mls, clip.OpenBound(open))
+}
 
 func smls(m orb.MultiLineString) string {
 	var sb strings.Builder
@@ -28,25 +57,234 @@ func runC07(op string, in []string) string {
 			box := rdBound(r)
 			ls := orb.LineString(r.pts())
 			before := spts(ls)
+			if !c07Returns([]orb.LineString{ls}, box, open, op, in) {
+				return "hang"
+			}
 			out := clip.LineString(box, ls, clip.OpenBound(open))
 			res := smls(out)
 			unmod := spts(ls) == before
 			// clipping a piece again returns it unchanged
 			idem := true
 			for _, piece := range out {
-				again := clip.LineString(box, piece.Clone(), clip.OpenBound(open))
-				if open {
-					// in open mode a piece's own endpoints lie on the boundary: compare in closed mode
-					again = clip.LineString(box, piece.Clone())
-				}
+				// (a piece's own end points lie on the boundary, so the comparison is made with the closed
+				// bound in both modes; all its vertices have region code 0, no intersection is computed)
+				again := clip.LineString(box, piece.Clone(), clip.OpenBound(false))
 				if len(again) != 1 || spts(again[0]) != spts(piece) {
 					idem = false
 				}
 			}
 			return res + " " + b2s(idem) + " " + b2s(unmod)
+		case "mls":
+			// the second entry point: clip.MultiLineString, with the option passed explicitly in both modes;
+			// alongside, clip.LineString of every member (on a clone) with the same option
+			open := r.int() == 1
+			box := rdBound(r)
+			n := r.int()
+			mls := make(orb.MultiLineString, n)
+			for i := range mls {
+				mls[i] = orb.LineString(r.pts())
+			}
+			before := smls(mls)
+			if !c07Returns(mls, box, open, op, in) {
+				return "hang"
+			}
+			out := clip.MultiLineString(box, mls, clip.OpenBound(open))
+			res := smls(out)
+			unmod := smls(mls) == before
+			var sb strings.Builder
+			sb.WriteString(fmt.Sprint(n))
+			for _, ls := range mls {
+				sb.WriteString(" ")
+				sb.WriteString(smls(clip.LineString(box, ls.Clone(), clip.OpenBound(open))))
+			}
+			return res + " " + b2s(unmod) + " " + sb.String()
 		}
 		return "badop"
 	})
+}
+
+// c07Returns reports whether the real clip call of the case (op, in) returns.
+// clip.line can loop for ever (known finding C07-corner-rounding-nontermination: near a corner the two
+// interpolations of the Cohen-Sutherland loop can round a clipped end point alternately a hair outside
+// one edge and the other).  A looping goroutine cannot be stopped, so normally the caller just makes the
+// call itself — no timeout, no false alarm on a loaded machine.  Only when a replica of the loop's control
+// flow with the same float arithmetic (c07Cycles) predicts that the loop is not left, the REAL call is
+// first made in a child process (this executable in probe mode) that is killed after 10 seconds: the
+// outcome `hang` is what was actually observed of the real code, and nothing is left spinning.
+func c07Returns(lines []orb.LineString, box orb.Bound, open bool, op string, in []string) bool {
+	predicted := false
+	for _, ls := range lines {
+		if c07Cycles(box, ls, open) {
+			predicted = true
+		}
+	}
+	if !predicted {
+		return true
+	}
+	exe, err := os.Executable()
+	if err != nil {
+		panic(err)
+	}
+	cmd := exec.Command(exe)
+	cmd.Env = append(os.Environ(), c07ProbeEnv+"="+op+" "+strings.Join(in, " "))
+	if err := cmd.Start(); err != nil {
+		panic(err)
+	}
+	done := make(chan error, 1)
+	go func() { done <- cmd.Wait() }()
+	select {
+	case err := <-done:
+		if err != nil {
+			panic(fmt.Sprint("probe: ", err)) // the real call crashed in the child: outcome `panic`
+		}
+		return true
+	case <-time.After(10 * time.Second):
+		cmd.Process.Kill()
+		<-done
+		return false
+	}
+}
+
+func c07Code(b orb.Bound, p orb.Point, open bool) int {
+	code := 0
+	if open {
+		if p[0] <= b.Min[0] {
+			code |= 1
+		} else if p[0] >= b.Max[0] {
+			code |= 2
+		}
+		if p[1] <= b.Min[1] {
+			code |= 4
+		} else if p[1] >= b.Max[1] {
+			code |= 8
+		}
+		return code
+	}
+	if p[0] < b.Min[0] {
+		code |= 1
+	} else if p[0] > b.Max[0] {
+		code |= 2
+	}
+	if p[1] < b.Min[1] {
+		code |= 4
+	} else if p[1] > b.Max[1] {
+		code |= 8
+	}
+	return code
+}
+
+// c07Cycles: does the inner loop of clip.line fail to finish within 64 rounds on some segment of ls?
+// (Exact arithmetic needs at most four.)  Used only to decide HOW the real code is called.
+func c07Cycles(box orb.Bound, ls orb.LineString, open bool) bool {
+	for i := 1; i < len(ls); i++ {
+		a, b := ls[i-1], ls[i]
+		codeA, codeB := c07Code(box, a, open), c07Code(box, b, open)
+		n := 0
+		for ; n < 64; n++ {
+			if codeA|codeB == 0 || codeA&codeB != 0 {
+				break
+			}
+			edge, moveA := codeB, false
+			if codeA != 0 {
+				edge, moveA = codeA, true
+			}
+			var p orb.Point
+			switch {
+			case edge&8 != 0:
+				p = orb.Point{a[0] + (b[0]-a[0])*(box.Max[1]-a[1])/(b[1]-a[1]), box.Max[1]}
+			case edge&4 != 0:
+				p = orb.Point{a[0] + (b[0]-a[0])*(box.Min[1]-a[1])/(b[1]-a[1]), box.Min[1]}
+			case edge&2 != 0:
+				p = orb.Point{box.Max[0], a[1] + (b[1]-a[1])*(box.Max[0]-a[0])/(b[0]-a[0])}
+			default:
+				p = orb.Point{box.Min[0], a[1] + (b[1]-a[1])*(box.Min[0]-a[0])/(b[0]-a[0])}
+			}
+			if moveA {
+				a, codeA = p, c07Code(box, p, false)
+			} else {
+				b, codeB = p, c07Code(box, p, false)
+			}
+		}
+		if n == 64 {
+			return true
+		}
+	}
+	return false
+}
+
+// c07Box is a clip box together with the recipe for placing vertices relative to it.
+type c07Box struct {
+	b    orb.Bound
+	kind int // 0: integer grid 1..5 (vertices on the 7x7 grid), 1: quarter grid, negative corners allowed, 2: general-position floats
+}
+
+func (x c07Box) tok() string {
+	return fmt.Sprintf("%s %s %s %s", fb(x.b.Min[0]), fb(x.b.Min[1]), fb(x.b.Max[0]), fb(x.b.Max[1]))
+}
+
+// c07RandBox draws a box with non-integer and negative corners.
+//
+//	kind 1: corners on the quarter grid in [-8, 8] (the placement arithmetic below is exact on it, so
+//	        vertices land exactly on edges, corners and on lines through corners);
+//	kind 2: general-position float corners, magnitude up to 1, 10, 100 or 1000, either sign.
+func c07RandBox(r interface {
+	Intn(int) int
+	Float64() float64
+}, kind int) c07Box {
+	if kind == 1 {
+		x0, y0 := r.Intn(56)-32, r.Intn(56)-32
+		w, h := 1+r.Intn(16), 1+r.Intn(16)
+		return c07Box{orb.Bound{Min: orb.Point{float64(x0) / 4, float64(y0) / 4}, Max: orb.Point{float64(x0+w) / 4, float64(y0+h) / 4}}, 1}
+	}
+	scale := []float64{1, 10, 100, 1000}[r.Intn(4)]
+	for {
+		x0, y0 := (r.Float64()*2-1)*scale, (r.Float64()*2-1)*scale
+		w, h := (0.01+r.Float64())*scale/2, (0.01+r.Float64())*scale/2
+		b := orb.Bound{Min: orb.Point{x0, y0}, Max: orb.Point{x0 + w, y0 + h}}
+		if b.Min[0] < b.Max[0] && b.Min[1] < b.Max[1] {
+			return c07Box{b, 2}
+		}
+	}
+}
+
+// c07Coord places one coordinate relative to [lo, hi]: below, exactly lo, inside, exactly hi, above
+// (insideOnly: never outside).  Quarter-grid boxes get quarter-grid offsets (exact coincidences with
+// edges, corners and corner diagonals); float boxes get random offsets (general position) but the
+// exact edge values lo / hi are copied, so vertices on edges and corners do occur.
+func c07Coord(r interface {
+	Intn(int) int
+	Float64() float64
+}, kind int, lo, hi float64, insideOnly bool) float64 {
+	cls := r.Intn(11)
+	if insideOnly {
+		cls = 2 + r.Intn(7)
+	}
+	w := hi - lo
+	switch {
+	case cls < 2: // below
+		if kind == 1 {
+			return lo - float64(1+r.Intn(int(w*4)+4))/4
+		}
+		return lo - (0.001+r.Float64())*w
+	case cls < 4:
+		return lo
+	case cls < 7: // inside (or on an edge, for the narrowest quarter-grid boxes)
+		if kind == 1 {
+			return lo + float64(r.Intn(int(w*4)+1))/4
+		}
+		return lo + r.Float64()*w
+	case cls < 9:
+		return hi
+	default: // above
+		if kind == 1 {
+			return hi + float64(1+r.Intn(int(w*4)+4))/4
+		}
+		return hi + (0.001+r.Float64())*w
+	}
+}
+
+func c07In(b orb.Bound, p orb.Point) bool {
+	return b.Min[0] <= p[0] && p[0] <= b.Max[0] && b.Min[1] <= p[1] && p[1] <= b.Max[1]
 }
 
 func genC07(c *Ctx) {
@@ -54,7 +292,8 @@ func genC07(c *Ctx) {
 	bx := func(x0, y0, x1, y1 int) string {
 		return fmt.Sprintf("%s %s %s %s", fb(float64(x0)), fb(float64(y0)), fb(float64(x1)), fb(float64(y1)))
 	}
-	// exhaustive: all segments on the 7x7 grid against all sub-boxes of the inner 5x5 grid (coordinates 1..5), both options
+	// exhaustive: all segments on the 7x7 grid against all sub-boxes of the inner 5x5 grid (coordinates 1..5),
+	// both options — in every tier, every run (100 boxes x 2401 segments x 2 options, sharded)
 	idx := 0
 	type box struct{ x0, y0, x1, y1 int }
 	var boxes []box
@@ -76,9 +315,6 @@ func genC07(c *Ctx) {
 						if !c.Mine(idx) {
 							continue
 						}
-						if c.Tier != "thorough" && idx%4 != c.Shard%4 && (ax+ay+cx+cy)%3 != 0 {
-							continue // quick: a third of the segment space per run
-						}
 						for o := 0; o < 2; o++ {
 							c.Case("line", fmt.Sprintf("%d %s 2 %s %s %s %s", o, bx(b.x0, b.y0, b.x1, b.y1),
 								fb(float64(ax)), fb(float64(ay)), fb(float64(cx)), fb(float64(cy))))
@@ -91,10 +327,52 @@ func genC07(c *Ctx) {
 			return
 		}
 	}
-	// two-segment paths (thorough: all; quick: random sample) and longer random lines
-	n2 := c.Budget
-	for k := 0; k < n2 && !c.Exhausted(); k++ {
-		b := boxes[r.Intn(len(boxes))]
+	// thorough tier: ALL two-segment paths on the 7x7 grid against all 100 boxes, both options
+	// (100 x 49^3 x 2 = 23.5 million cases, sharded).  The quick tier samples them at random below.
+	if c.Tier == "thorough" {
+		idx = 0
+		for _, b := range boxes {
+			bt := bx(b.x0, b.y0, b.x1, b.y1)
+			for a := 0; a < 49; a++ {
+				for m := 0; m < 49; m++ {
+					for e := 0; e < 49; e++ {
+						idx++
+						if !c.Mine(idx) {
+							continue
+						}
+						for o := 0; o < 2; o++ {
+							c.Case("line", fmt.Sprintf("%d %s 3 %s %s %s %s %s %s", o, bt,
+								fb(float64(a/7)), fb(float64(a%7)), fb(float64(m/7)), fb(float64(m%7)), fb(float64(e/7)), fb(float64(e%7))))
+						}
+					}
+				}
+				if c.Exhausted() {
+					return
+				}
+			}
+		}
+	}
+	// random phase: boxes of three kinds (integer grid / quarter grid incl. negative / general-position
+	// floats incl. negative and large), two-segment paths and longer lines, and multi line strings
+	randBox := func() c07Box {
+		switch k := r.Intn(10); {
+		case k < 4:
+			b := boxes[r.Intn(len(boxes))]
+			return c07Box{orb.Bound{Min: orb.Point{float64(b.x0), float64(b.y0)}, Max: orb.Point{float64(b.x1), float64(b.y1)}}, 0}
+		case k < 7:
+			return c07RandBox(r, 1)
+		default:
+			return c07RandBox(r, 2)
+		}
+	}
+	// one line string for the box; `insideOnly`: no vertex outside the closed box (vertices on the
+	// boundary and runs along edges included)
+	// `place`: 0 = the absolute vertex families of the integer boxes (7x7 grid, half-integer grid,
+	// floats in [0,6]); 1 / 2 = placed relative to the box (c07Coord) on the quarter grid / in general position
+	randLine := func(b orb.Bound, place int, insideOnly bool) []orb.Point {
+		if insideOnly && place == 0 {
+			place = 1
+		}
 		n := 3
 		mode := r.Intn(4)
 		if mode >= 2 {
@@ -104,11 +382,28 @@ func genC07(c *Ctx) {
 			n = r.Intn(2)
 		}
 		ps := make([]orb.Point, n)
+		aim := place == 2 && n >= 2 && r.Intn(6) == 0
 		for i := range ps {
-			switch mode {
-			case 3: // general position floats
+			switch {
+			case aim && i > 0 && c07In(b, ps[i-1]):
+				// general position, previous vertex in the closed box: aim the segment through a corner of
+				// the box to a point beyond it (the exact line misses the corner by rounding only)
+				c := orb.Point{b.Min[0], b.Min[1]}
+				if r.Intn(2) == 0 {
+					c[0] = b.Max[0]
+				}
+				if r.Intn(2) == 0 {
+					c[1] = b.Max[1]
+				}
+				t := 0.1 + r.Float64()*3
+				ps[i] = orb.Point{c[0] + t*(c[0]-ps[i-1][0]), c[1] + t*(c[1]-ps[i-1][1])}
+			case aim && i%2 == 0:
+				ps[i] = orb.Point{c07Coord(r, place, b.Min[0], b.Max[0], true), c07Coord(r, place, b.Min[1], b.Max[1], true)}
+			case place != 0:
+				ps[i] = orb.Point{c07Coord(r, place, b.Min[0], b.Max[0], insideOnly), c07Coord(r, place, b.Min[1], b.Max[1], insideOnly)}
+			case mode == 3: // general position floats
 				ps[i] = orb.Point{r.Float64() * 6, r.Float64() * 6}
-			case 2: // half-integer grid
+			case mode == 2: // half-integer grid
 				ps[i] = orb.Point{float64(r.Intn(13)) / 2, float64(r.Intn(13)) / 2}
 			default:
 				ps[i] = orb.Point{float64(r.Intn(7)), float64(r.Intn(7))}
@@ -117,6 +412,35 @@ func genC07(c *Ctx) {
 				ps[i] = ps[i-1] // repeated vertex
 			}
 		}
-		c.Case("line", fmt.Sprintf("%d %s %s", r.Intn(2), bx(b.x0, b.y0, b.x1, b.y1), spts(ps)))
+		return ps
+	}
+	for k := 0; k < c.Budget && !c.Exhausted(); k++ {
+		b := randBox()
+		o := r.Intn(2)
+		place := b.kind
+		if b.kind == 0 && r.Intn(6) == 0 {
+			place = 1 // integer box, vertices placed relative to it on the quarter grid
+		}
+		if r.Intn(5) != 0 {
+			c.Case("line", fmt.Sprintf("%d %s %s", o, b.tok(), spts(randLine(b.b, place, r.Intn(12) == 0))))
+			continue
+		}
+		// clip.MultiLineString: 0..4 members; every member is also judged on its own as a `line` case
+		n := r.Intn(5)
+		if b.kind == 0 && r.Intn(2) == 0 {
+			place = 1
+		}
+		var sb strings.Builder
+		sb.WriteString(fmt.Sprint(n))
+		members := make([]string, n)
+		for i := range members {
+			members[i] = spts(randLine(b.b, place, r.Intn(3) == 0))
+			sb.WriteString(" ")
+			sb.WriteString(members[i])
+		}
+		c.Case("mls", fmt.Sprintf("%d %s %s", o, b.tok(), sb.String()))
+		for _, m := range members {
+			c.Case("line", fmt.Sprintf("%d %s %s", o, b.tok(), m))
+		}
 	}
 }
